@@ -2242,9 +2242,29 @@ class ResetIndex(Elemwise):
                 # Avoid Projection since we are already a Series
                 subs = Projection(self, name)
                 predicate = parent.predicate.substitute(subs, self.frame)
-            if predicate is not None:
-                # The remaining terms of the predicate still refer to ourselves
-                predicate = predicate.substitute(self, self.frame)
+            if predicate is None:
+                predicate = parent.predicate
+            # The remaining terms of the predicate still refer to ourselves
+            predicate = predicate.substitute(self, self.frame)
+            # ... or, after a column selection was pushed below, to another
+            # reset_index of the same rows, whose labels differ from ours
+            for e in list(predicate.walk()):
+                if (
+                    isinstance(e, ResetIndex)
+                    and e.operand("drop")
+                    and are_co_aligned(e.frame, self.frame)
+                ):
+                    predicate = predicate.substitute(e, e.frame)
+                elif (
+                    isinstance(e, Projection)
+                    and isinstance(e.frame, ResetIndex)
+                    and e.frame.frame.ndim == 2
+                    and set(e.columns).issubset(e.frame.frame.columns)
+                    and are_co_aligned(e.frame.frame, self.frame)
+                ):
+                    predicate = predicate.substitute(
+                        e, Projection(e.frame.frame, e.operand("columns"))
+                    )
             return self._filter_simplification(parent, predicate)
 
         if isinstance(parent, Projection):
